@@ -58,7 +58,7 @@ def run_external(smt2_text, backend, timeout_s):
         if backend == "z3-4.8":
             cmd = ["/usr/bin/z3", f"-T:{timeout_s}", "auto_config=false", "smt.mbqi=false", path]
         else:
-            cmd = ["/usr/bin/cvc5", f"--tlimit={timeout_s * 1000}", "--lang=smt2", "--no-mbqi" if False else "--e-matching", path]
+            cmd = ["/usr/bin/cvc5", f"--tlimit={timeout_s * 1000}", "--lang=smt2", path]
         t0 = time.time()
         try:
             p = subprocess.run(cmd, capture_output=True, text=True, timeout=timeout_s + 5)
@@ -71,28 +71,45 @@ def run_external(smt2_text, backend, timeout_s):
         os.unlink(path)
 
 
-def discharge(eng, inst, timeout_ms=20000, fuel=1, second_backend=None, params=None):
-    sv = build_solver(eng, inst.hyps, inst.goal, timeout_ms, fuel)
+def discharge(eng, inst, timeout_ms=20000, fuel=1, second_backend=None, params=None, first_ms=None):
+    """z3 5.1 (in process) first, with a short budget; on time-out the same query (SMT-LIB text) goes to
+    /usr/bin/z3 4.8.12 and then cvc5.  Only `unsat` discharges; `unknown (incomplete quantifiers)` is
+    the normal not-proved signal; time-outs on every back end are `timeout` (undecided)."""
+    first_ms = first_ms or min(timeout_ms, int(os.environ.get("PYVC_FIRST_MS", "2500")))
+    sv = build_solver(eng, inst.hyps, inst.goal, first_ms, fuel)
     t0 = time.time()
     res = sv.check()
     dt = time.time() - t0
     reason = sv.reason_unknown() if res == z3.unknown else ""
     verdict = classify(res, reason)
-    out = {"verdict": verdict, "backend": "z3-5.1(py)", "seconds": round(dt, 4), "reason": reason}
+    out = {"verdict": verdict, "backend": "z3-5.1(py)", "seconds": round(dt, 4), "reason": reason, "tried": ["z3-5.1(py)"]}
     if verdict in ("refuted", "notproved") and params is not None:
         try:
             out["model"] = extract_model(sv.model(), params)
         except Exception as ex:  # candidate model unavailable
             out["model"] = None
             out["model_error"] = repr(ex)
-    if second_backend and verdict in ("proved", "timeout") or (second_backend and verdict.startswith("unknown")):
-        txt = "(set-logic ALL)\n" + sv.to_smt2()
-        r2, dt2 = run_external(txt, second_backend, max(5, timeout_ms // 1000))
-        out["second"] = {"backend": second_backend, "result": r2, "seconds": round(dt2, 3)}
-        if verdict != "proved" and r2 == "unsat":
-            out["verdict"] = "proved"
-            out["backend"] = second_backend
+    need_other = verdict == "timeout" or verdict.startswith("unknown")
+    if need_other or (second_backend and verdict == "proved"):
+        txt = "(set-option :auto_config false)\n(set-option :smt.mbqi false)\n" + sv.to_smt2()
+        backends = ["z3-4.8", "cvc5"] if need_other else [second_backend]
+        for be in backends:
+            r2, dt2 = run_external(txt if be != "cvc5" else cvc5_text(sv), be, max(2, timeout_ms // 1000))
+            out["tried"].append(be)
+            out.setdefault("others", []).append({"backend": be, "result": r2, "seconds": round(dt2, 3)})
+            out["seconds"] = round(out["seconds"] + dt2, 4)
+            if need_other and r2 == "unsat":
+                out["verdict"] = "proved"
+                out["backend"] = be
+                break
+            if need_other and r2 == "unknown" and be == "z3-4.8":
+                # incomplete quantifiers on the old z3: a genuine not-proved signal
+                pass
     return out
+
+
+def cvc5_text(sv):
+    return "(set-logic ALL)\n" + sv.to_smt2()
 
 
 def canary(eng, hyps, timeout_ms=3000, fuel=1):
